@@ -368,9 +368,10 @@ def sendOp {A : Allocator} (cfg : Cfg) (c : Conn A) (s : Sess) (inp : Option Bat
     let pin := pinOf cfg c.w inp
     match s.initErr with
     | some e =>
-        -- the server answered the failed init with an error stream and drains the input unresolved
-        (⟨[errEv e], []⟩, { c with w := drainInput pin.2 pin.1,
-                                   sess := some { s with carry := [], srvDone := true, closed := true } })
+        -- the server answered the failed init with an error stream (the logs the method emitted, then the error) and
+        -- drains the input unresolved
+        (⟨(readW (drainInput pin.2 pin.1) s.carry).1 ++ [errEv e], []⟩,
+         { c with w := drainInput pin.2 pin.1, sess := some { s with carry := [], srvDone := true, closed := true } })
     | none =>
       if s.srvDone then
         -- the server left its loop earlier: the input is drained unresolved; the client reads what is left
@@ -405,8 +406,7 @@ def step {A : Allocator} (cfg : Cfg) (c : Conn A) : Op → OpOut × Conn A
   | .call logs out req => if sessionOpen c.sess then (⟨[], []⟩, c) else callOp cfg c logs out req
   | .openS exch early init il steps =>
       if sessionOpen c.sess then (⟨[], []⟩, c)
-      else (⟨[], []⟩, { c with sess := some ⟨exch, early, init, (match init with | some _ => [] | none => inlLogs il), steps,
-                                              init.isSome, false, none⟩ })
+      else (⟨[], []⟩, { c with sess := some ⟨exch, early, init, inlLogs il, steps, init.isSome, false, none⟩ })
   | .tick => match c.sess with
       | some s => sendOp cfg c s none none
       | none => (⟨[], []⟩, c)
